@@ -296,7 +296,10 @@ func (s *Spec) Check(e *Exec, t []string) {
 		for _, u := range s.sortedLive() {
 			want = append(want, s.live[u].String())
 		}
-		got := strings.Join(r[2:], " ")
+		got := ""
+		if len(r) > 2 {
+			got = strings.Join(r[2:], " ")
+		}
 		if r[0] != "ok" || got != strings.Join(want, " ") {
 			s.fail(e, "C01", "all: got %v want %v", r, want)
 		}
@@ -382,7 +385,10 @@ func (s *Spec) checkBatch(e *Exec, t, r []string, fresh []int) {
 	n := 0
 	want := "ok"
 	for _, ch := range chunks {
+		// the property text: a member conflicts with a STORED object (the contents before
+		// the chunk) or with another member of the chunk
 		tmp := map[int]Flat{}
+		batch := map[int]Flat{}
 		for k, v := range s.live {
 			tmp[k] = v
 		}
@@ -416,11 +422,12 @@ func (s *Spec) checkBatch(e *Exec, t, r []string, fresh []int) {
 				ok, want = false, "json"
 				break
 			}
-			if s.conflict(cf, tmp) {
+			if s.conflict(cf, s.live) || s.conflict(cf, batch) {
 				ok, want = false, "unique"
 				break
 			}
 			tmp[cf.U] = cf
+			batch[cf.U] = cf
 		}
 		if !ok {
 			break
